@@ -167,14 +167,17 @@ var engineNames = [2]string{"compiler", "interpreter"}
 var instNames = [4]string{"compiler/A", "compiler/B", "interpreter/A", "interpreter/B"}
 
 type worker struct {
-	ctx   context.Context
-	rts   [2]wazero.Runtime
-	codes [2]wazero.CompiledModule
-	alpha []letter
+	// shapeB selects how instance B of every engine reaches the WASI imports (instance A is always
+	// direct): shapeFF, shapeA5, or -1 = alternate FF/A5 from call to call.
+	shapeB int
+	ctx    context.Context
+	rts    [2]wazero.Runtime
+	codes  [2]wazero.CompiledModule
+	alpha  []letter
 }
 
-func newWorker(alpha []letter, guest []byte) (*worker, error) {
-	w := &worker{ctx: context.Background(), alpha: alpha}
+func newWorker(alpha []letter, guest []byte, shapeB int) (*worker, error) {
+	w := &worker{ctx: context.Background(), alpha: alpha, shapeB: shapeB}
 	for e, cfg := range []wazero.RuntimeConfig{wazero.NewRuntimeConfigCompiler(), wazero.NewRuntimeConfigInterpreter()} {
 		rt := wazero.NewRuntimeWithConfig(w.ctx, cfg)
 		if _, err := wasi_snapshot_preview1.Instantiate(w.ctx, rt); err != nil {
@@ -203,7 +206,8 @@ type inst struct {
 }
 
 // runWord executes the word in four fresh instances — two per engine, the two of one engine alive at
-// the same time, created from one wazero.NewModuleConfig() value and stepped alternately.
+// the same time, created from one wazero.NewModuleConfig() value and stepped alternately. Instance A
+// calls the export wrappers directly, instance B goes through the hostile-stack shapes (alphabet.go).
 // It returns the four traces in instNames order.
 func (w *worker) runWord(word []int) (out [4][]byte, err error) {
 	for e := 0; e < 2; e++ {
@@ -216,10 +220,10 @@ func (w *worker) runWord(word []int) (out [4][]byte, err error) {
 			}
 			is[k] = &inst{mod: mod, mem: mod.Memory(), tr: make([]byte, 0, len(word)*(5+winSize))}
 		}
-		for _, li := range word {
+		for j, li := range word {
 			for k := 0; k < 2; k++ {
 				if !is[k].done {
-					w.stepInst(is[k], &w.alpha[li])
+					w.stepInst(is[k], &w.alpha[li], w.shapeOf(k, j))
 				}
 			}
 		}
@@ -231,8 +235,40 @@ func (w *worker) runWord(word []int) (out [4][]byte, err error) {
 	return out, nil
 }
 
-func (w *worker) stepInst(in *inst, l *letter) {
-	res, err := in.mod.ExportedFunction(l.Fn).Call(w.ctx, l.Args...)
+// shapeOf: call shape of instance k (0 = A, 1 = B) at step j.
+func (w *worker) shapeOf(k, j int) int {
+	switch {
+	case k == 0:
+		return shapeDirect
+	case w.shapeB >= 0:
+		return w.shapeB
+	case j%2 == 0:
+		return shapeFF
+	}
+	return shapeA5
+}
+
+// shapeModeOf: E0 -> B always 0xFF.., E1 -> B always 0xA5.., E2 (and anything else) -> alternating.
+func shapeModeOf(envID string) int {
+	switch envID {
+	case "E0":
+		return shapeFF
+	case "E1":
+		return shapeA5
+	}
+	return -1
+}
+
+func (w *worker) describeShapes() string {
+	switch w.shapeB {
+	case shapeFF, shapeA5:
+		return "instance A: " + shapeLabel[shapeDirect] + "; instance B: " + shapeLabel[w.shapeB]
+	}
+	return "instance A: " + shapeLabel[shapeDirect] + "; instance B: alternately " + shapeLabel[shapeFF] + " / " + shapeLabel[shapeA5]
+}
+
+func (w *worker) stepInst(in *inst, l *letter, shape int) {
+	res, err := in.mod.ExportedFunction(l.Fn+shapeSuffix[shape]).Call(w.ctx, l.Args...)
 	kind, val, extra := byte(kindRet), uint32(0), ""
 	var ee *wsys.ExitError
 	switch {
